@@ -4,7 +4,7 @@
    Print Assumptions beneath.  The model is Model/Middleware.v (serve), the
    monitors are in Spec/WorldSpec.v, the proofs in Proofs/W_C03.v. *)
 From VF Require Import Base.Prelude Model.Cache Model.Session Model.Middleware Corr.WorldCorr Spec.WorldSpec.
-From VF Require Import Proofs.WorldBase Proofs.W_C03 Proofs.W_BExample.
+From VF Require Import Proofs.WorldBase Proofs.W_C03 Proofs.W_BExample Proofs.W_C03I.
 Open Scope N_scope.
 
 (* ---------------------------------------------------------------- step part *)
@@ -57,6 +57,17 @@ Theorem C03_initiation_step :
                    /\ get_str 3 p = s /\ get_str 4 p = n /\ get_str 5 p = c /\ get_bool 1 p = false.
 Proof. exact c03_serve_initiation. Qed.
 Print Assumptions C03_initiation_step.
+
+(* The same as the boolean monitor the correspondence check applies to every
+   observed response (so a login redirect whose cookies are deletions, or store
+   other values than the URL shows, is a violation with the response as witness):
+   no premise, any instance state. *)
+Theorem C03_initiation_monitor :
+  forall (E : env) (cfg : config) (st : inst) (now : time) (rq : request)
+         (rnd : istr * istr * istr) (ans : option answer),
+    c03_init_step (snd (serve E cfg st now rq rnd ans)) = true.
+Proof. exact c03_init_serve. Qed.
+Print Assumptions C03_initiation_monitor.
 
 (* Non-vacuity: in a concrete world meeting the premises, an initiation stores
    (60, 61, 62); the callback carrying that cookie with state 60 exchanges the
